@@ -1,7 +1,7 @@
 (* Regex_Proofs.v — soundness of the emptiness certificate check:
    closed_cert CL atoms W tr = true  ->  no state of W accepts ANY byte string. *)
 From Verif Require Import Bytes Regex RegexDeriv RegexDecide.
-From Coq Require Import Lia.
+From Coq Require Import Lia FMapPositive.
 
 Lemma cset_eqb_eq a : forall b, cset_eqb a b = true -> a = b.
 Proof.
@@ -123,15 +123,35 @@ Proof.
   - destruct (IH l' x Hlen' Hin) as [y Hy]. exists y. right; exact Hy.
 Qed.
 
+Lemma build_map_find l : forall i j m0 q,
+  PositiveMap.find i (build_map l j m0) = Some q -> In q l \/ PositiveMap.find i m0 = Some q.
+Proof.
+  induction l as [|x l IH]; intros i j m0 q H; cbn in H.
+  - right; exact H.
+  - destruct (IH _ _ _ _ H) as [Hin|Hf].
+    + left. right. exact Hin.
+    + destruct (Pos.eq_dec i j) as [E|E].
+      * subst. rewrite PositiveMap.gss in Hf. inversion Hf. left. left. reflexivity.
+      * rewrite PositiveMap.gso in Hf by exact E. right. exact Hf.
+Qed.
+
+Lemma wfind_In W i q :
+  wfind (build_map W 1%positive (PositiveMap.empty state)) i = Some q -> In q W.
+Proof.
+  unfold wfind. intros H. destruct (build_map_find _ _ _ _ _ H) as [Hin|Hf]; [exact Hin|].
+  rewrite PositiveMap.gempty in Hf. discriminate.
+Qed.
+
 Section Sound.
   Variables (CL : list cset) (atoms : list atom) (W : list state) (tr : list (list nat)).
   Hypothesis Hcert : closed_cert CL atoms W tr = true.
 
   Lemma cert_parts :
     atoms_ok CL atoms = true /\ length W = length tr /\
-    forall q succ, In (q, succ) (combine W tr) -> row_ok CL atoms W q succ = true.
+    forall q succ, In (q, succ) (combine W tr) ->
+      row_ok CL atoms (build_map W 1%positive (PositiveMap.empty state)) q succ = true.
   Proof.
-    unfold closed_cert in Hcert. apply andb_prop in Hcert as [H H3]. apply andb_prop in H as [H1 H2].
+    unfold closed_cert in Hcert. cbv zeta in Hcert. apply andb_prop in Hcert as [H H3]. apply andb_prop in H as [H1 H2].
     split; [exact H1|]. split; [apply Nat.eqb_eq; exact H2|].
     intros q succ Hin. rewrite forallb_forall in H3. apply (H3 (q, succ)). exact Hin.
   Qed.
@@ -159,8 +179,9 @@ Section Sound.
     assert (Hex : exists i, In (a, i) (combine atoms succ))
       by (apply in_combine_ex; [symmetry; exact Hlen|exact Ha]).
     destruct Hex as [i Hi]. rewrite forallb_forall in Hsucc. specialize (Hsucc (a, i) Hi).
-    cbn [fst snd] in Hsucc. destruct (nth_error W i) as [q'|] eqn:En; [|discriminate].
-    apply state_eqb_eq in Hsucc. apply nth_error_In in En. rewrite <- Hsucc in En.
+    cbn [fst snd] in Hsucc.
+    destruct (wfind (build_map W 1%positive (PositiveMap.empty state)) i) as [q'|] eqn:En; [|discriminate].
+    apply state_eqb_eq in Hsucc. apply wfind_In in En. rewrite <- Hsucc in En.
     (* step q c = step q (rep a) *)
     assert (Es : step q c = step q (fst a)).
     { unfold step. rewrite <- Hk. f_equal. symmetry. apply td_indist; [exact Hk|].
